@@ -24,6 +24,12 @@ META = {
 }
 
 
+def _idx(res):
+    """index of the record the violated invariant was evaluated on (a violation in the initial state has no 'State n:' header)"""
+    m = re.search(r"l = (\d+)", res.error_state or "")
+    return int(m.group(1)) if m else 1
+
+
 def _summary(p):
     return json.loads([l for l in p.stdout.splitlines() if l.startswith("SUMMARY ")][-1][8:])
 
@@ -51,34 +57,33 @@ def run(ctx):
             raise vlib.HarnessError("record count mismatch")
         all_rows = rows
         validated = 0
-        base = 0
-        states = trans = 0
+        dropped = 0
         while True:
             res = vlib.run_tlc("SigTrace", "SigTrace.cfg", files=[rec], workers=1, timeout=2400, heap="8g")
             if res.violated in ("RecordOK", "DetectOK"):
-                k = int(re.search(r"l = (\d+)", res.error_state).group(1))
+                k = _idx(res)
                 r = rows[k - 1]
                 what = ("tampered %s of %s [%s] at offset %d (%s) -> status=%s reason=%s docModified=%s" %
                         (r["kind"], r["doc"], r["sig"], r["off"], r["region"], r["status"], r["reason"], r["docmod"]))
+                same = lambda x: (x["doc"], x["sig"], x["kind"], x["region"]) == (r["doc"], r["sig"], r["kind"], r["region"])
+                n_same = sum(1 for x in rows if same(x))
                 if res.violated == "RecordOK":
                     ctx.report("claim|%s|%s|%s|%s" % (r["doc"], r["sig"], r["kind"], r["region"]),
-                               "reported valid/unmodified: " + what, r)
+                               "reported valid/unmodified: %s  [first of %d records of this signature and kind]" % (what, n_same), r)
                 else:
                     ctx.report("undetected|%s|%s|%s" % (r["doc"], r["sig"], r["kind"]),
-                               "verdict identical to the untouched document although probes inside the same ranges are rejected: " + what, r)
-                validated += k
-                # keep the probes of the remaining signatures: re-run on the rest, but retain this signature's probes
-                rest = rows[k:]
-                keep = [x for x in rows[:k] if x["kind"] == "probe" and (x["doc"], x["sig"]) == (r["doc"], r["sig"])]
-                rows = keep + rest
-                base += 0
-                if not rest or len(ctx.violations) > 25:
+                               "verdict identical to the untouched document although probes inside the same ranges are rejected: "
+                               "%s  [first of %d records of this signature and kind]" % (what, n_same), r)
+                validated += 1
+                # the remaining records of the same signature and kind are not judged again (one report per key)
+                dropped += n_same - 1
+                rows = [x for x in rows if not same(x)]
+                if not rows or len(ctx.violations) >= 12:
                     break
                 vlib.write_ndjson(rec, rows)
-                validated -= len(keep)
                 continue
             if res.violated in ("GeomOK", "VacuityOK"):
-                k = int(re.search(r"l = (\d+)", res.error_state).group(1))
+                k = _idx(res)
                 raise vlib.HarnessError("%s failed on record %s" % (res.violated, json.dumps(rows[k - 1])))
             if not res.ok:
                 raise vlib.HarnessError("SigTrace did not accept the records: %s\n%s" % (res.violated, res.out[-2000:]))
@@ -110,7 +115,7 @@ def run(ctx):
                     "range boundaries), hex-digit value/case edits of /Contents by region and /ByteRange value shifts from TLC "
                     "(SigEdits.tla); non-trivial = distinct constrained tamperings of a signature whose untouched verdict is valid / "
                     "unmodified or which rejects at least one probe (so that an undetected tampering would show)",
-               exhaustive=False, records_judged_by_tlc=validated, edits_from_tlc=nedits,
+               exhaustive=False, records_judged_by_tlc=validated, records_not_rejudged_after_a_report=dropped, edits_from_tlc=nedits,
                signatures=len(sigs), sensitive_signatures=len(sens),
                insensitive_signatures=sorted("%s[%s]" % s for s in sigs - sens),
                flips_by_class=by_class, kinds=summ["kinds"], skipped=summ["skipped"], documents=summ["docs"],
